@@ -571,6 +571,11 @@ class _Shape(ast.NodeVisitor):
         for t in node.targets:
             self.visit(t)
 
+    def visit_AnnAssign(self, node):          # x: int = 0  ==  x = 0
+        if node.value is not None:
+            self.visit(node.value)
+            self.visit(node.target)
+
     def visit_BoolOp(self, node):
         self.emit("and(" if isinstance(node.op, ast.And) else "or(")
         for v in node.values:
@@ -644,6 +649,67 @@ class _Shape(ast.NodeVisitor):
         self.emit("continue")
 
 
+def _normalise_locals(fn):
+    """Rename the function-LOCAL names (everything bound inside the body: assignment, augmented
+    and annotated assignment, for / with-as / except-as targets, comprehension variables, :=)
+    to v1, v2, ... in order of first binding occurrence.  Parameters, globals, builtins and
+    attributes keep their names: a renamed local cannot change behaviour, anything else can."""
+    params = {a.arg for a in fn.args.posonlyargs + fn.args.args + fn.args.kwonlyargs}
+    if fn.args.vararg:
+        params.add(fn.args.vararg.arg)
+    if fn.args.kwarg:
+        params.add(fn.args.kwarg.arg)
+    declared = set()
+    order = []
+
+    def bind(name):
+        if name not in params and name not in declared and name not in order:
+            order.append(name)
+
+    class Binder(ast.NodeVisitor):
+        def visit_Global(self, node):
+            declared.update(node.names)
+
+        visit_Nonlocal = visit_Global
+
+        def visit_Name(self, node):
+            if isinstance(node.ctx, (ast.Store, ast.Del)):
+                bind(node.id)
+
+        def visit_ExceptHandler(self, node):
+            if node.name:
+                bind(node.name)
+            self.generic_visit(node)
+
+        def visit_FunctionDef(self, node):      # a nested function: its name is a local binding
+            bind(node.name)
+
+        visit_AsyncFunctionDef = visit_FunctionDef
+        visit_ClassDef = visit_FunctionDef
+
+    b = Binder()
+    for st in fn.body:
+        b.visit(st)
+    ren = {n: "v%d" % (k + 1) for k, n in enumerate(order)}
+
+    class Renamer(ast.NodeTransformer):
+        def visit_Name(self, node):
+            if node.id in ren:
+                return ast.copy_location(ast.Name(id=ren[node.id], ctx=node.ctx), node)
+            return node
+
+        def visit_ExceptHandler(self, node):
+            self.generic_visit(node)
+            if node.name in ren:
+                node.name = ren[node.name]
+            return node
+
+    import copy
+    fn2 = copy.deepcopy(fn)
+    fn2.body = [Renamer().visit(st) for st in fn2.body]
+    return fn2
+
+
 def shape_signatures(src_dir):
     """-> dict 'file:Class.method' -> token string"""
     out = {}
@@ -661,7 +727,7 @@ def shape_signatures(src_dir):
             out[key] = "MISSING"
             continue
         v = _Shape()
-        v.block(fn.body)
+        v.block(_normalise_locals(fn).body)
         out[key] = " ".join(v.out)
     return out
 
@@ -675,9 +741,9 @@ EXPECTED_SHAPE = {
     ),
     'channel.py:HTTPChannel.handle_write': (
         '{ if not R:requests { m:_flush_some_if_lockable } else { if or( R:total_outbufs_len cmp:GtE: , R:tot'
-        'al_outbufs_len cmp:Gt: , ) { m:_flush_some_if_lockable } else { } } m:_flush_exception v:flush call:'
-        '_flush_exception() if and( R:close_when_flushed , not R:total_outbufs_len , ) { W:close_when_flushed'
-        ' W:will_close } if R:will_close { m:handle_close call:handle_close() } }'
+        'al_outbufs_len cmp:Gt: , ) { m:_flush_some_if_lockable } else { } } m:_flush_exception v:v1 call:_fl'
+        'ush_exception() if and( R:close_when_flushed , not R:total_outbufs_len , ) { W:close_when_flushed W:'
+        'will_close } if R:will_close { m:handle_close call:handle_close() } }'
     ),
     'channel.py:HTTPChannel._flush_exception': (
         '{ if v:flush { try { v:flush v:do_close return } except:OSError { if { } W:will_close return } excep'
@@ -689,21 +755,20 @@ EXPECTED_SHAPE = {
     ),
     'channel.py:HTTPChannel.handle_read': (
         '{ try { m:recv call:recv() } except:OSError { if { } m:handle_close call:handle_close() return } if '
-        'v:data { v:time m:received v:data call:received() } else { W:connected } }'
+        'v:v1 { v:time m:received v:v1 call:received() } else { W:connected } }'
     ),
     'channel.py:HTTPChannel.send_continue': (
-        '{ R:request v:len v:outbuf_payload R:outbuf_lock with { R:outbufs m:append v:outbuf_payload call:app'
-        'end() v:num_bytes R:current_outbuf_count W:current_outbuf_count v:num_bytes R:total_outbufs_len W:to'
-        'tal_outbufs_len W:sent_continue m:_flush_exception m:_flush_some v:do_close call:_flush_exception(do'
-        '_close=do_close) } }'
+        '{ R:request v:len v:v1 R:outbuf_lock with { R:outbufs m:append v:v1 call:append() v:v2 R:current_out'
+        'buf_count W:current_outbuf_count v:v2 R:total_outbufs_len W:total_outbufs_len W:sent_continue m:_flu'
+        'sh_exception m:_flush_some v:do_close call:_flush_exception(do_close=do_close) } }'
     ),
     'channel.py:HTTPChannel.received': (
         '{ if not v:data { return } R:requests_lock with { if or( R:will_close , R:close_when_flushed , ) { r'
         'eturn } while v:data { if R:request cmp:Is:None { W:request } R:request m:received v:data call:recei'
         'ved() if and( R:request , R:request , not R:requests , not R:sent_continue , ) { m:send_continue cal'
         'l:send_continue() } if R:request { W:sent_continue if not R:request { R:requests m:append R:request '
-        'call:append() if v:len R:requests cmp:Eq:1 { m:add_task call:add_task() } } W:request } if v:n v:len'
-        ' v:data cmp:GtE: { break } v:data v:n } } return }'
+        'call:append() if v:len R:requests cmp:Eq:1 { m:add_task call:add_task() } } W:request } if v:v1 v:le'
+        'n v:data cmp:GtE: { break } v:data v:v1 } } return }'
     ),
     'channel.py:HTTPChannel._flush_some_if_lockable': (
         '{ if R:outbuf_lock m:acquire call:acquire() { try { m:_flush_some v:do_close call:_flush_some(do_clo'
@@ -711,59 +776,57 @@ EXPECTED_SHAPE = {
         'outbuf_lock m:release call:release() } } }'
     ),
     'channel.py:HTTPChannel._flush_some': (
-        '{ while { R:outbufs v:outbuf while v:outbuflen cmp:Gt:0 { v:outbuf m:get call:get() m:send v:chunk v'
-        ':do_close call:send(do_close=do_close) if v:num_sent { v:outbuf m:skip v:num_sent call:skip() v:num_'
-        'sent v:num_sent v:num_sent R:total_outbufs_len W:total_outbufs_len } else { break } } else { if v:le'
-        'n R:outbufs cmp:Gt:1 { R:outbufs m:pop call:pop() try { v:toclose m:close call:close() } except:Exce'
-        'ption { } } else { } } if v:dobreak { break } } if v:sent { v:time return } return }'
+        '{ while { R:outbufs v:v3 while v:v4 cmp:Gt:0 { v:v3 m:get call:get() m:send v:v5 v:do_close call:sen'
+        'd(do_close=do_close) if v:v6 { v:v3 m:skip v:v6 call:skip() v:v6 v:v6 v:v6 R:total_outbufs_len W:tot'
+        'al_outbufs_len } else { break } } else { if v:len R:outbufs cmp:Gt:1 { R:outbufs m:pop call:pop() tr'
+        'y { v:v7 m:close call:close() } except:Exception { } } else { } } if v:v2 { break } } if v:v1 { v:ti'
+        'me return } return }'
     ),
     'channel.py:HTTPChannel.handle_close': (
-        '{ R:outbuf_lock with { for R:outbufs { try { v:outbuf m:close call:close() } except:Exception { } } '
-        'W:total_outbufs_len W:connected R:outbuf_lock m:notify call:notify() } v:wasyncore m:close call:clos'
-        'e() }'
+        '{ R:outbuf_lock with { for R:outbufs { try { v:v1 m:close call:close() } except:Exception { } } W:to'
+        'tal_outbufs_len W:connected R:outbuf_lock m:notify call:notify() } v:wasyncore m:close call:close() '
+        '}'
     ),
     'channel.py:HTTPChannel.write_soon': (
         '{ if not R:connected { raise:ClientDisconnected } if v:data { R:outbuf_lock with { m:_flush_outbufs_'
         'below_high_watermark call:_flush_outbufs_below_high_watermark() if not R:connected { raise:ClientDis'
         'connected } v:len v:data if v:isinstance v:data v:ReadOnlyFileBasedBuffer { R:outbufs m:append v:dat'
-        'a call:append() v:OverflowableBuffer R:outbufs m:append v:nextbuf call:append() W:current_outbuf_cou'
-        'nt } else { if R:current_outbuf_count cmp:GtE: { v:OverflowableBuffer R:outbufs m:append v:nextbuf c'
-        'all:append() W:current_outbuf_count } R:outbufs m:append v:data call:append() v:num_bytes R:current_'
-        'outbuf_count W:current_outbuf_count } v:num_bytes R:total_outbufs_len W:total_outbufs_len if R:total'
-        '_outbufs_len cmp:GtE: { m:_flush_exception m:_flush_some call:_flush_exception(do_close=False) if or'
-        '( v:exception , not v:flushed , R:total_outbufs_len cmp:GtE: , ) { m:pull_trigger call:pull_trigger('
-        ') } } } v:num_bytes return } return }'
+        'a call:append() v:OverflowableBuffer R:outbufs m:append v:v2 call:append() W:current_outbuf_count } '
+        'else { if R:current_outbuf_count cmp:GtE: { v:OverflowableBuffer R:outbufs m:append v:v2 call:append'
+        '() W:current_outbuf_count } R:outbufs m:append v:data call:append() v:v1 R:current_outbuf_count W:cu'
+        'rrent_outbuf_count } v:v1 R:total_outbufs_len W:total_outbufs_len if R:total_outbufs_len cmp:GtE: { '
+        'm:_flush_exception m:_flush_some call:_flush_exception(do_close=False) if or( v:v4 , not v:v3 , R:to'
+        'tal_outbufs_len cmp:GtE: , ) { m:pull_trigger call:pull_trigger() } } } v:v1 return } return }'
     ),
     'channel.py:HTTPChannel._flush_outbufs_below_high_watermark': (
         '{ if R:total_outbufs_len cmp:Gt: { R:outbuf_lock with { if not R:connected { return } m:_flush_excep'
-        'tion m:_flush_some call:_flush_exception(do_close=False) if v:exception { m:pull_trigger call:pull_t'
-        'rigger() R:outbuf_lock m:wait call:wait() return } while and( R:connected , R:total_outbufs_len cmp:'
-        'Gt: , ) { m:pull_trigger call:pull_trigger() R:outbuf_lock m:wait call:wait() } } } }'
+        'tion m:_flush_some call:_flush_exception(do_close=False) if v:v2 { m:pull_trigger call:pull_trigger('
+        ') R:outbuf_lock m:wait call:wait() return } while and( R:connected , R:total_outbufs_len cmp:Gt: , )'
+        ' { m:pull_trigger call:pull_trigger() R:outbuf_lock m:wait call:wait() } } } }'
     ),
     'channel.py:HTTPChannel.service': (
-        '{ R:requests if v:request { v:request } else { v:request } try { if and( R:connected , not R:will_cl'
-        'ose , ) { v:task m:service call:service() } else { v:task } } except:ClientDisconnected { v:task R:r'
-        'equest v:task } except:BaseException { v:task R:request if not v:task { if { v:traceback } else { } '
-        'v:request v:request v:InternalServerError v:body v:err_request v:req_version v:err_request v:getattr v:request v:err_request try { v:r'
-        'eq_headers v:err_request } except:KeyError { } v:err_request try { v:task m:service call:service() }'
-        ' except:ClientDisconnected { v:task } } else { v:task } } if v:task { R:requests_lock with { W:close'
-        '_when_flushed for R:requests { v:request m:close call:close() } W:requests } } else { if v:len R:req'
-        'uests cmp:Gt:1 { m:_flush_outbufs_below_high_watermark call:_flush_outbufs_below_high_watermark() } '
-        'if R:current_outbuf_count cmp:Gt:0 { W:current_outbuf_count } v:request m:close call:close() R:reque'
-        'sts_lock with { R:requests m:pop call:pop() if and( R:connected , R:requests , ) { m:add_task call:a'
-        'dd_task() } else { if and( R:connected , R:request cmp:IsNot:None , R:request , R:request , not R:se'
-        'nt_continue , ) { m:send_continue call:send_continue(do_close=False) } } } } if R:connected { m:pull'
-        '_trigger call:pull_trigger() } v:time }'
+        '{ R:requests if v:v1 { v:v1 } else { v:v1 } try { if and( R:connected , not R:will_close , ) { v:v2 '
+        'm:service call:service() } else { v:v2 } } except:ClientDisconnected { v:v2 R:request v:v2 } except:'
+        'BaseException { v:v2 R:request if not v:v2 { if { v:traceback } else { } v:v1 v:v1 v:InternalServerE'
+        'rror v:v3 v:v6 v:v4 v:v6 v:getattr v:v1 v:v6 try { v:v5 v:v6 } except:KeyError { } v:v6 try { v:v2 m'
+        ':service call:service() } except:ClientDisconnected { v:v2 } } else { v:v2 } } if v:v2 { R:requests_'
+        'lock with { W:close_when_flushed for R:requests { v:v1 m:close call:close() } W:requests } } else { '
+        'if v:len R:requests cmp:Gt:1 { m:_flush_outbufs_below_high_watermark call:_flush_outbufs_below_high_'
+        'watermark() } if R:current_outbuf_count cmp:Gt:0 { W:current_outbuf_count } v:v1 m:close call:close('
+        ') R:requests_lock with { R:requests m:pop call:pop() if and( R:connected , R:requests , ) { m:add_ta'
+        'sk call:add_task() } else { if and( R:connected , R:request cmp:IsNot:None , R:request , R:request ,'
+        ' not R:sent_continue , ) { m:send_continue call:send_continue(do_close=False) } } } } if R:connected'
+        ' { m:pull_trigger call:pull_trigger() } v:time }'
     ),
     'task.py:ThreadedTaskDispatcher.handler_thread': (
         '{ while { R:lock with { while and( not R:queue , R:stop_count cmp:Eq:0 , ) { R:queue_cv m:wait call:'
         'wait() } if R:stop_count cmp:Gt:0 { R:stop_count W:stop_count v:thread_no m:notify call:notify() bre'
-        'ak } R:queue m:popleft call:popleft() } try { v:task m:service call:service() } except:BaseException'
-        ' { v:task } } }'
+        'ak } R:queue m:popleft call:popleft() } try { v:v1 m:service call:service() } except:BaseException {'
+        ' v:v1 } } }'
     ),
     'task.py:ThreadedTaskDispatcher.add_task': (
         '{ R:lock with { R:queue m:append v:task call:append() R:queue_cv m:notify call:notify() v:len R:queu'
-        'e v:len R:stop_count if v:queue_size v:idle_threads cmp:Gt: { v:queue_size v:idle_threads } } }'
+        'e v:len R:stop_count if v:v1 v:v2 cmp:Gt: { v:v1 v:v2 } } }'
     ),
     'wasyncore.py:.read': (
         '{ try { v:obj m:handle_read_event call:handle_read_event() } except:_reraised_exceptions { raise: } '
@@ -777,42 +840,41 @@ EXPECTED_SHAPE = {
         '{ try { if v:flags v:select { v:obj m:handle_read_event call:handle_read_event() } if v:flags v:sele'
         'ct { v:obj m:handle_write_event call:handle_write_event() } if v:flags v:select { v:obj m:handle_exp'
         't_event call:handle_expt_event() } if v:flags v:select v:select v:select { v:obj m:handle_close call'
-        ':handle_close() } } except:OSError { if v:e v:_DISCONNECTED cmp:NotIn: { v:obj m:handle_error call:h'
-        'andle_error() } else { v:obj m:handle_close call:handle_close() } } except:_reraised_exceptions { ra'
-        'ise: } except:* { v:obj m:handle_error call:handle_error() } }'
+        ':handle_close() } } except:OSError { if v:v1 v:_DISCONNECTED cmp:NotIn: { v:obj m:handle_error call:'
+        'handle_error() } else { v:obj m:handle_close call:handle_close() } } except:_reraised_exceptions { r'
+        'aise: } except:* { v:obj m:handle_error call:handle_error() } }'
     ),
     'wasyncore.py:.poll': (
-        '{ if v:map cmp:Is:None { v:socket_map } if v:map { for v:list v:map { v:obj m:readable call:readable'
-        '() v:obj m:writable call:writable() if v:is_r { v:r m:append v:fd call:append() } if and( v:is_w , n'
-        'ot v:obj , ) { v:w m:append v:fd call:append() } if or( v:is_r , v:is_w , ) { v:e m:append v:fd call'
-        ':append() } } if v:r v:w v:e cmp:Eq,Eq,Eq: { v:time v:timeout return } try { v:select m:select v:r v'
-        ':w v:e v:timeout call:select() } except:OSError { if v:err v:EINTR cmp:NotEq: { raise: } else { retu'
-        'rn } } for v:r { v:map m:get v:fd call:get() if v:obj cmp:Is:None { continue } v:read v:obj call:rea'
-        'd() } for v:w { v:map m:get v:fd call:get() if v:obj cmp:Is:None { continue } v:write v:obj call:wri'
-        'te() } for v:e { v:map m:get v:fd call:get() if v:obj cmp:Is:None { continue } v:_exception v:obj } '
-        '} }'
+        '{ if v:map cmp:Is:None { v:socket_map } if v:map { for v:list v:map { v:v5 m:readable call:readable('
+        ') v:v5 m:writable call:writable() if v:v6 { v:v1 m:append v:v4 call:append() } if and( v:v7 , not v:'
+        'v5 , ) { v:v2 m:append v:v4 call:append() } if or( v:v6 , v:v7 , ) { v:v3 m:append v:v4 call:append('
+        ') } } if v:v1 v:v2 v:v3 cmp:Eq,Eq,Eq: { v:time v:timeout return } try { v:select m:select v:v1 v:v2 '
+        'v:v3 v:timeout call:select() } except:OSError { if v:v8 v:EINTR cmp:NotEq: { raise: } else { return '
+        '} } for v:v1 { v:map m:get v:v4 call:get() if v:v5 cmp:Is:None { continue } v:read v:v5 call:read() '
+        '} for v:v2 { v:map m:get v:v4 call:get() if v:v5 cmp:Is:None { continue } v:write v:v5 call:write() '
+        '} for v:v3 { v:map m:get v:v4 call:get() if v:v5 cmp:Is:None { continue } v:_exception v:v5 } } }'
     ),
     'wasyncore.py:.poll2': (
         '{ if v:map cmp:Is:None { v:socket_map } if v:timeout cmp:IsNot:None { v:int v:timeout } v:select m:p'
-        'oll call:poll() if v:map { for v:list v:map { if v:obj m:readable call:readable() { v:select v:selec'
-        't } if and( v:obj m:writable call:writable() , not v:obj , ) { v:select } if v:flags { v:pollster m:'
-        'register v:fd v:flags call:register() } } try { v:pollster m:poll v:timeout call:poll() } except:OSE'
-        'rror { if v:err v:EINTR cmp:NotEq: { raise: } } for v:r { v:map m:get v:fd call:get() if v:obj cmp:I'
-        's:None { continue } v:readwrite v:obj v:flags call:readwrite() } } }'
+        'oll call:poll() if v:map { for v:list v:map { if v:v3 m:readable call:readable() { v:select v:select'
+        ' } if and( v:v3 m:writable call:writable() , not v:v3 , ) { v:select } if v:v4 { v:v1 m:register v:v'
+        '2 v:v4 call:register() } } try { v:v1 m:poll v:timeout call:poll() } except:OSError { if v:v6 v:EINT'
+        'R cmp:NotEq: { raise: } } for v:v5 { v:map m:get v:v2 call:get() if v:v3 cmp:Is:None { continue } v:'
+        'readwrite v:v3 v:v4 call:readwrite() } } }'
     ),
     'wasyncore.py:dispatcher.send': (
-        '{ try { m:send v:data call:send() v:result return } except:OSError { if v:why v:EWOULDBLOCK cmp:Eq: '
-        '{ return } else { if v:why v:_DISCONNECTED cmp:In: { if v:do_close { m:handle_close call:handle_clos'
-        'e() } return } else { raise: } } } }'
+        '{ try { m:send v:data call:send() v:v1 return } except:OSError { if v:v2 v:EWOULDBLOCK cmp:Eq: { ret'
+        'urn } else { if v:v2 v:_DISCONNECTED cmp:In: { if v:do_close { m:handle_close call:handle_close() } '
+        'return } else { raise: } } } }'
     ),
     'wasyncore.py:dispatcher.recv': (
-        '{ try { m:recv v:buffer_size call:recv() if not v:data { m:handle_close call:handle_close() return }'
-        ' else { v:data return } } except:OSError { if v:why v:_DISCONNECTED cmp:In: { m:handle_close call:ha'
-        'ndle_close() return } else { raise: } } }'
+        '{ try { m:recv v:buffer_size call:recv() if not v:v1 { m:handle_close call:handle_close() return } e'
+        'lse { v:v1 return } } except:OSError { if v:v2 v:_DISCONNECTED cmp:In: { m:handle_close call:handle_'
+        'close() return } else { raise: } } }'
     ),
     'wasyncore.py:dispatcher.close': (
         '{ W:connected m:del_channel call:del_channel() if cmp:IsNot:None { try { m:close call:close() } exce'
-        'pt:OSError { if v:why v:ENOTCONN v:EBADF cmp:NotIn: { raise: } } } }'
+        'pt:OSError { if v:v1 v:ENOTCONN v:EBADF cmp:NotIn: { raise: } } } }'
     ),
     'wasyncore.py:dispatcher.handle_read_event': (
         '{ if { } else { if not R:connected { if { } m:handle_read call:handle_read() } else { m:handle_read '
@@ -826,8 +888,8 @@ EXPECTED_SHAPE = {
         '() }'
     ),
     'trigger.py:_triggerbase.handle_read': (
-        '{ try { m:recv call:recv() } except:OSError { return } R:lock with { for { try { v:thunk } except:* '
-        '{ v:wasyncore v:t v:v v:tbinfo } } } }'
+        '{ try { m:recv call:recv() } except:OSError { return } R:lock with { for { try { v:v1 } except:* { v'
+        ':wasyncore v:v3 v:v4 v:v5 } } } }'
     ),
 }
 
